@@ -27,7 +27,21 @@ func (k *vOtherKey) Verify(d []byte, s []byte) (bool, error) { return false, nil
 // engine-side models of the libp2p key plumbing
 var vKeyTag = map[libp2pcrypto.PubKey]byte{}
 
+var vForcedIdentity byte // non-zero: the identity bytes decode to this peer's secp256k1 key
+var vDecodes int          // identity decodings performed
+var vLastTag byte         // peer tag the last decoded identity belongs to (0: malformed)
+
 func vUnmarshalPublicKey(b []byte) (libp2pcrypto.PubKey, error) {
+	vDecodes++
+	vLastTag = 0
+	if vForcedIdentity == 0 && len(b) > 0 {
+		vLastTag = b[0] % 4
+	}
+	if vForcedIdentity != 0 {
+		k := new(libp2pcrypto.Secp256k1PublicKey)
+		vKeyTag[k] = vForcedIdentity
+		return k, nil
+	}
 	if len(b) == 0 || b[0]%4 == 0 {
 		return nil, vErr
 	}
@@ -76,8 +90,26 @@ func VerifC18_Envelope() {
 	author := byte(vU8()) // the authenticated publisher is peer p1, p2, p3 (or someone else)
 	vAssume(author >= 1 && author <= 4)
 	msg := &pb.BroadcastNetworkMessage{Sender: []byte{0x0a, 0x01}, Payload: []byte{1}, Type: []byte(typ), SequenceNumber: vU64()}
+	// optionally the same publisher sent a well-formed envelope before (the
+	// binding must hold for every envelope, not only the first of a peer)
+	if author <= 2 && vBool() {
+		vReach("second-envelope")
+		okPayload := payloadFails
+		payloadFails = false
+		first := &pb.BroadcastNetworkMessage{Sender: []byte{author}, Payload: []byte{1}, Type: []byte("known"), SequenceNumber: 1}
+		vForcedIdentity = author
+		ferr := c.processContainerMessage(peer.ID([]byte{'p', '0' + author}), first)
+		vForcedIdentity = 0
+		vAssume(ferr == nil && len(mh.channel) == 1) // the cases in which that first envelope is well formed and delivered
+		<-mh.channel
+		payloadFails = okPayload
+	}
+	decodesBefore := vDecodes
 	err := c.processContainerMessage(peer.ID([]byte{'p', '0' + author}), msg)
 	delivered := len(mh.channel)
+	if delivered == 1 {
+		vAssert(vDecodes > decodesBefore && vLastTag == author, "a message was delivered without its inner sender identity being decoded and matched against the authenticated publisher")
+	}
 	vReach("processed")
 	vAssert((err == nil) == (delivered == 1), "a message was delivered together with an error, or dropped without one")
 	if delivered == 1 {
